@@ -7,7 +7,7 @@ boundary extensions only at the two ends); first/last/terminal accessors; byte c
 the slice remap tables; the bulk constructors' lockstep rules, and exactly on every k-mer type: from_bytes / from_ascii build the
 K bases given, kmers_from_bytes / kmers_from_ascii of n = K-1, K, K+2 bases yield max(0, n-K+1) items, item i = bases i..i+K.
 Added later: Lmer new/len for every capacity, override table of the k-mer iterators, end-to-end iterator lemmas over views, accessors at lengths K+1..K+5."""
-from .. import lemmas, dt_seq, structural
+from .. import lemmas, dt_seq, dt_strings, structural
 from . import common
 
 THOROUGH_FACTS = True
@@ -32,3 +32,7 @@ def run(F, rep):
         rep.run(lemmas.kmer_default_lemmas, F, rep, ty, which={"from_bytes", "from_ascii", "bulk"}, rule="L-default")
     # provided methods of the k-mer iterators that the crate overrides (fold, count, last, nth …) must agree with next()
     rep.run(dt_seq.kmer_iter_override_table, F, rep, "C13.2")
+    # "the bulk k-mers-from-ASCII constructors equal the k-mer built from bases i..i+K": the ASCII route into a growable string
+    # (scalar table and vector kernel) must read every byte as K::from_ascii / kmers_from_ascii read it (wave 10, C13-m18)
+    rep.run(dt_strings.byte_tables, F, rep, "C13.8")
+    rep.run(dt_strings.avx_kernels, F, rep, "C13.8", thorough=(rep.tier == "thorough"))
